@@ -48,7 +48,8 @@ type c10Sort struct {
 // c10Step is one step of a history: "write" (typed Write of the Go struct
 // rows, for the master schema), "writerows" (WriteRows of parquet.Row values),
 // "sort" (sort.Sort), "read" (read all rows through Rows()), "flush"
-// (SortingWriter.Flush).
+// (SortingWriter.Flush), "close" (SortingWriter.Close: ends an output file),
+// "reset" (SortingWriter.Reset with a new output: the writer is reused).
 type c10Step struct {
 	Op   string      `json:"op"`
 	Rows [][]c10Cell `json:"rows,omitempty"`
@@ -802,6 +803,23 @@ func c10CheckBuffer(c *core.Ctx, cs *c10Case) (obs []c10Obs, ok bool) {
 						c.Mismatch("corr:C10.comparator", head+strings.Join(ops, "/"), cm, ans[3], cs)
 						ok = false
 					}
+					if repCol >= 0 && good {
+						// Go's Less matrix against the comparator of the model, for which
+						// C10_repeated_less_is_comparator is proved: Less(i,j) <=> comparator < 0
+						want := strings.Map(func(r rune) rune {
+							switch r {
+							case '-':
+								return '1'
+							case '0', '+':
+								return '0'
+							}
+							return r
+						}, ans[3])
+						if want != lm {
+							c.Mismatch("corr:C10.repeated-less-vs-proved-comparator", head+strings.Join(ops, "/"), lm, want, cs)
+							ok = false
+						}
+					}
 					if mr := rowsR(cur); ans[0] != mr {
 						c.Mismatch("corr:C10.logical-rows", head+strings.Join(ops, "/"), mr, ans[0], cs)
 						ok = false
@@ -921,11 +939,21 @@ func c10CheckBuffer(c *core.Ctx, cs *c10Case) (obs []c10Obs, ok bool) {
 // ---------------------------------------------------------------------------
 // SortingWriter
 
+// c10File is one output file of a SortingWriter history: its bytes and the
+// rows written to it (between the previous Close/Reset and its Close).
+type c10File struct {
+	data    []byte
+	written [][]c10Cell
+}
+
+// c10CheckWriter runs a history (write | writerows | flush | close | reset)* on
+// one SortingWriter; a Close is implied at the end unless the history ends with
+// one. Every closed file is checked against the rows written to it, and the
+// files together against the model of the writer (Sort/Writer.v).
 func c10CheckWriter(c *core.Ctx, cs *c10Case) bool {
 	cols := cs.Cols
 	sorting := c10SortingColumns(cs)
-	var out bytes.Buffer
-	var written [][]c10Cell
+	var files []c10File
 	var tmpdir string
 	defer func() {
 		if tmpdir != "" {
@@ -953,7 +981,19 @@ func c10CheckWriter(c *core.Ctx, cs *c10Case) bool {
 		if cs.MaxRowsRG > 0 {
 			wopts = append(wopts, parquet.MaxRowsPerRowGroup(int64(cs.MaxRowsRG)))
 		}
-		w := parquet.NewSortingWriter[c10RowT](&out, int64(cs.SortRows), wopts...)
+		out := new(bytes.Buffer)
+		var written [][]c10Cell
+		closed := false
+		w := parquet.NewSortingWriter[c10RowT](out, int64(cs.SortRows), wopts...)
+		closeFile := func() bool {
+			if err := w.Close(); err != nil {
+				failure = "Close: " + err.Error()
+				return false
+			}
+			files = append(files, c10File{data: append([]byte(nil), out.Bytes()...), written: written})
+			closed = true
+			return true
+		}
 		for _, st := range cs.Steps {
 			switch st.Op {
 			case "write":
@@ -966,6 +1006,7 @@ func c10CheckWriter(c *core.Ctx, cs *c10Case) bool {
 					return
 				}
 				written = append(written, st.Rows...)
+				closed = false
 			case "writerows":
 				prs := make([]parquet.Row, len(st.Rows))
 				for i := range st.Rows {
@@ -976,25 +1017,181 @@ func c10CheckWriter(c *core.Ctx, cs *c10Case) bool {
 					return
 				}
 				written = append(written, st.Rows...)
+				closed = false
 			case "flush":
 				if err := w.Flush(); err != nil {
 					failure = "Flush: " + err.Error()
 					return
 				}
+			case "close":
+				if !closeFile() {
+					return
+				}
+			case "reset":
+				out = new(bytes.Buffer)
+				w.Reset(out)
+				written = nil
+				closed = false
 			}
 		}
-		if err := w.Close(); err != nil {
-			failure = "Close: " + err.Error()
+		if !closed {
+			closeFile()
 		}
 	})
 	if msg != "" || failure != "" {
 		c.Violation("writer-error", "SortingWriter failed: "+msg+failure, cs)
 		return false
 	}
+	ok := true
+	gotIDs := make([][]int64, len(files))
+	for fi, f := range files {
+		ids, good := c10CheckWriterFile(c, cs, fi, len(files), f)
+		if !good {
+			ok = false
+		}
+		if ids == nil {
+			return false
+		}
+		gotIDs[fi] = ids
+	}
+	if ok && !c10CheckWriterModel(c, cs, files, gotIDs) {
+		ok = false
+	}
+	return ok
+}
+
+// c10WriterOps renders a writer history for the oracle (c10.sw) and numbers
+// the rows in the order they are written: num maps the id cell of a row to
+// its number, rows[k] is the row numbered k.
+func c10WriterOps(cs *c10Case) (ops string, num map[int64]int, rows [][]c10Cell) {
+	num = map[int64]int{}
+	var toks []string
+	closed := false
+	for _, st := range cs.Steps {
+		switch st.Op {
+		case "write", "writerows":
+			toks = append(toks, "W"+c10ModelRowsW(cs.Cols, st.Rows))
+			for _, r := range st.Rows {
+				num[r[0].I] = len(rows)
+				rows = append(rows, r)
+			}
+			closed = false
+		case "flush":
+			toks = append(toks, "F")
+		case "close":
+			toks = append(toks, "C")
+			closed = true
+		case "reset":
+			toks = append(toks, "R")
+			closed = false
+		}
+	}
+	if !closed {
+		toks = append(toks, "C")
+	}
+	return strings.Join(toks, "/"), num, rows
+}
+
+// c10CheckWriterModel: the files of the Go SortingWriter against the model of
+// the writer. The order sort.Sort gives rows of equal keys is not specified, so
+// the files are compared position by position up to rows of equal keys: the
+// same number of rows, and at every position a row whose key equals the key of
+// the model's row (Schema.Comparator == 0); without DropDuplicatedRows also the
+// same set of rows.
+func c10CheckWriterModel(c *core.Ctx, cs *c10Case, files []c10File, gotIDs [][]int64) bool {
+	ops, num, rows := c10WriterOps(cs)
+	if len(rows) > 400 || !c.HasOracle() {
+		return true
+	}
+	if len(num) != len(rows) {
+		return true // ids are not unique: the rows cannot be told apart
+	}
+	var srt []string
+	for _, s := range cs.Sorting {
+		srt = append(srt, fmt.Sprintf("%d:%s:%s", s.Col, b01(s.Desc), b01(s.NullsFirst)))
+	}
+	req := fmt.Sprintf("c10.sw %s %x %s 0 %s", strings.Join(srt, ","), cs.SortRows, b01(cs.Dedupe), ops)
+	ans := c.Ask(req)
+	var got []string
+	for _, ids := range gotIDs {
+		var t []string
+		for _, id := range ids {
+			t = append(t, strconv.FormatInt(int64(num[id]), 16))
+		}
+		if len(t) == 0 {
+			got = append(got, "_")
+		} else {
+			got = append(got, strings.Join(t, ","))
+		}
+	}
+	impl := strings.Join(got, "|")
+	if len(got) == 0 {
+		impl = "-"
+	}
+	bad := func() bool {
+		c.Mismatch("corr:C10.writer-model", req, impl, ans, cs)
+		return false
+	}
+	var model [][]int
+	if ans != "-" {
+		for _, f := range strings.Split(ans, "|") {
+			var m []int
+			if f != "_" {
+				for _, t := range strings.Split(f, ",") {
+					k, err := strconv.ParseInt(t, 16, 32)
+					if err != nil || int(k) >= len(rows) {
+						return bad()
+					}
+					m = append(m, int(k))
+				}
+			}
+			model = append(model, m)
+		}
+	}
+	if len(model) != len(gotIDs) {
+		return bad()
+	}
+	compare := parquet.SchemaOf(c10RowT{}).Comparator(c10SortingColumns(cs)...)
+	for fi := range model {
+		if len(model[fi]) != len(gotIDs[fi]) {
+			return bad()
+		}
+		var a, b []int
+		for p, k := range model[fi] {
+			g := num[gotIDs[fi][p]]
+			if g != k && compare(c10MakeRow(cs.Cols, rows[g]), c10MakeRow(cs.Cols, rows[k])) != 0 {
+				return bad()
+			}
+			a, b = append(a, g), append(b, k)
+		}
+		if !cs.Dedupe {
+			sort.Ints(a)
+			sort.Ints(b)
+			for p := range a {
+				if a[p] != b[p] {
+					return bad()
+				}
+			}
+		}
+	}
+	return true
+}
+
+// c10CheckWriterFile evaluates the property on one closed file: rows of the
+// file in order (their ids are returned; nil when the file cannot be used).
+func c10CheckWriterFile(c *core.Ctx, cs *c10Case, fi, nfiles int, file c10File) ([]int64, bool) {
+	cols := cs.Cols
+	sorting := c10SortingColumns(cs)
+	written := file.written
+	where := ""
+	if nfiles > 1 {
+		where = fmt.Sprintf("file %d of %d written by the same SortingWriter: ", fi+1, nfiles)
+	}
+	var failure string
 	var got []parquet.Row
 	var meta [][]c10Sort
-	msg = c10Guard(func() {
-		f, err := parquet.OpenFile(bytes.NewReader(out.Bytes()), int64(out.Len()))
+	msg := c10Guard(func() {
+		f, err := parquet.OpenFile(bytes.NewReader(file.data), int64(len(file.data)))
 		if err != nil {
 			failure = "OpenFile: " + err.Error()
 			return
@@ -1026,8 +1223,8 @@ func c10CheckWriter(c *core.Ctx, cs *c10Case) bool {
 		}
 	})
 	if msg != "" || failure != "" {
-		c.Violation("writer-output-unreadable", "reading the SortingWriter output failed: "+msg+failure, cs)
-		return false
+		c.Violation("writer-output-unreadable", where+"reading the SortingWriter output failed: "+msg+failure, cs)
+		return nil, false
 	}
 	ok := true
 	for gi, m := range meta {
@@ -1036,7 +1233,7 @@ func c10CheckWriter(c *core.Ctx, cs *c10Case) bool {
 			same = m[i] == cs.Sorting[i]
 		}
 		if !same {
-			c.Violation("sorting-metadata", fmt.Sprintf("row group %d records sorting columns %+v, declared %+v", gi, m, cs.Sorting), cs)
+			c.Violation("sorting-metadata", fmt.Sprintf("%srow group %d records sorting columns %+v, declared %+v", where, gi, m, cs.Sorting), cs)
 			ok = false
 			break
 		}
@@ -1044,25 +1241,27 @@ func c10CheckWriter(c *core.Ctx, cs *c10Case) bool {
 	schema := parquet.SchemaOf(c10RowT{})
 	compare := schema.Comparator(sorting...)
 	gotCells := make([][]c10Cell, len(got))
+	ids := make([]int64, len(got))
 	a := make([]string, len(got))
 	for i, r := range got {
 		cells, good := c10ParseRow(cols, r)
 		if !good {
-			c.Violation("writer-not-a-permutation", fmt.Sprintf("output row %d is malformed: %v", i, r), cs)
-			return false
+			c.Violation("writer-not-a-permutation", fmt.Sprintf("%soutput row %d is malformed: %v", where, i, r), cs)
+			return nil, false
 		}
 		gotCells[i] = cells
+		ids[i] = cells[0].I
 		a[i] = c10Canon(cols, cells)
 	}
 	for i := 0; i+1 < len(got); i++ {
 		x := compare(got[i], got[i+1])
 		if x > 0 {
-			c.Violation("writer-not-sorted", fmt.Sprintf("output rows %d and %d are out of order for Schema.Comparator: %s then %s; sorting %+v", i, i+1, a[i], a[i+1], cs.Sorting), cs)
+			c.Violation("writer-not-sorted", fmt.Sprintf("%soutput rows %d and %d are out of order for Schema.Comparator: %s then %s; sorting %+v", where, i, i+1, a[i], a[i+1], cs.Sorting), cs)
 			ok = false
 			break
 		}
 		if x == 0 && cs.Dedupe {
-			c.Violation("writer-duplicate-key", fmt.Sprintf("DropDuplicatedRows: output rows %d and %d have the same key: %s and %s", i, i+1, a[i], a[i+1]), cs)
+			c.Violation("writer-duplicate-key", fmt.Sprintf("%sDropDuplicatedRows: output rows %d and %d have the same key: %s and %s", where, i, i+1, a[i], a[i+1]), cs)
 			ok = false
 			break
 		}
@@ -1078,8 +1277,8 @@ func c10CheckWriter(c *core.Ctx, cs *c10Case) bool {
 		sort.Strings(sa)
 		sort.Strings(sb)
 		if strings.Join(sa, "\n") != strings.Join(sb, "\n") {
-			c.Violation("writer-not-a-permutation", fmt.Sprintf("the %d output rows are not a permutation of the %d rows written", len(a), len(b)), cs)
-			return false
+			c.Violation("writer-not-a-permutation", fmt.Sprintf("%sthe %d output rows are not a permutation of the %d rows written", where, len(a), len(b)), cs)
+			return nil, false
 		}
 	} else {
 		// every output row is one of the rows written (rows carry a unique id),
@@ -1091,8 +1290,8 @@ func c10CheckWriter(c *core.Ctx, cs *c10Case) bool {
 		seen := map[string]bool{}
 		for _, s := range a {
 			if !in[s] || seen[s] {
-				c.Violation("writer-not-a-permutation", "DropDuplicatedRows: output row "+s+" was not written or appears twice", cs)
-				return false
+				c.Violation("writer-not-a-permutation", where+"DropDuplicatedRows: output row "+s+" was not written to this file or appears twice", cs)
+				return nil, false
 			}
 			seen[s] = true
 		}
@@ -1108,8 +1307,23 @@ func c10CheckWriter(c *core.Ctx, cs *c10Case) bool {
 			}
 		}
 		if keys != len(a) {
-			c.Violation("writer-dedupe-count", fmt.Sprintf("DropDuplicatedRows: %d distinct keys were written, the output has %d rows", keys, len(a)), cs)
+			c.Violation("writer-dedupe-count", fmt.Sprintf("%sDropDuplicatedRows: %d distinct keys were written, the output has %d rows", where, keys, len(a)), cs)
 			ok = false
+		}
+		// the key set is preserved: every key written is the key of an output row
+		for i := range wrows {
+			found := false
+			for j := range got {
+				if compare(wrows[i], got[j]) == 0 {
+					found = true
+					break
+				}
+			}
+			if !found && ok {
+				c.Violation("writer-key-lost", fmt.Sprintf("%sDropDuplicatedRows: no output row has the key of the written row %s", where, b[i]), cs)
+				ok = false
+				break
+			}
 		}
 	}
 	// the model's comparator orders the output too
@@ -1148,7 +1362,7 @@ func c10CheckWriter(c *core.Ctx, cs *c10Case) bool {
 			ok = false
 		}
 	}
-	return ok
+	return ids, ok
 }
 
 // ---------------------------------------------------------------------------
@@ -1197,11 +1411,18 @@ func c10Valid(cs *c10Case) bool {
 			return false
 		}
 	}
-	for _, st := range cs.Steps {
+	for i, st := range cs.Steps {
 		for _, r := range st.Rows {
 			if len(r) != len(cs.Cols) {
 				return false
 			}
+		}
+		// a closed SortingWriter is only used again after Reset
+		if st.Op == "close" && i+1 < len(cs.Steps) && cs.Steps[i+1].Op != "reset" {
+			return false
+		}
+		if (st.Op == "close" || st.Op == "reset") && cs.Kind != "writer" {
+			return false
 		}
 	}
 	return true
@@ -1486,6 +1707,93 @@ func c10MasterRow(id int64, a *int64) []c10Cell {
 
 func i64(v int64) *int64 { return &v }
 
+// c10KeyRow builds a master row with the given id whose column col (1 = a,
+// 2 = b, 4 = d) holds key; the other optional columns are null.
+func c10KeyRow(col int, id, key int64) []c10Cell {
+	r := []c10Cell{{I: id}, {}, {}, {}, {I: 7}, {S: "e"}, {}, {}, {L: []int64{id}}}
+	switch col {
+	case 1, 2:
+		r[col] = c10Cell1(1, key)
+	default:
+		r[4] = c10Cell{I: key}
+	}
+	return r
+}
+
+// c10GenReuse: one SortingWriter producing several files, each file's
+// smallest key (in sort order) being the greatest key of the previous file and
+// occurring once, in the first sort run of its file; the greatest key of a file
+// is the key of the last row written to it (so it is in the last sort run).
+func c10GenReuse(c *core.Ctx) *c10Case {
+	col := []int{4, 4, 1, 2}[c.Rng.Intn(4)]
+	cs := &c10Case{Kind: "writer", Master: true, Cols: c10MasterCols, Dedupe: c.Rng.Intn(6) != 0}
+	cs.Sorting = []c10Sort{{Col: col, Desc: c.Rng.Intn(2) == 0, NullsFirst: c.Rng.Intn(2) == 0}}
+	cs.SortRows = 1 + c.Rng.Intn(6)
+	cs.Pool = []string{"", "", "chunk", "mem"}[c.Rng.Intn(4)]
+	sign := int64(1)
+	if cs.Sorting[0].Desc {
+		sign = -1
+	}
+	nfiles := 2 + c.Rng.Intn(2)
+	id := int64(0)
+	lo := int64(1)
+	for f := 0; f < nfiles; f++ {
+		n := 1 + c.Rng.Intn(10)
+		keys := make([]int64, n)
+		for i := range keys {
+			keys[i] = lo + 1 + int64(c.Rng.Intn(3))
+		}
+		keys[n-1] = lo + 3
+		first := cs.SortRows
+		if first > n {
+			first = n
+		}
+		if f > 0 && (n > 1 || c.Rng.Intn(2) == 0) {
+			// the link key: once, in the first sort run (alone in the file when n = 1)
+			p := c.Rng.Intn(first)
+			if p == n-1 && n > 1 {
+				p = 0
+			}
+			keys[p] = lo
+		}
+		abandoned := f > 0 && f+1 < nfiles && c.Rng.Intn(5) == 0
+		for i := 0; i < n; {
+			k := 1 + c.Rng.Intn(n-i)
+			if i == 0 && k < first && c.Rng.Intn(2) == 0 {
+				k = first // keep the first sort run in one batch
+			}
+			if i+k > n {
+				k = n - i
+			}
+			var rows [][]c10Cell
+			for _, key := range keys[i : i+k] {
+				id++
+				rows = append(rows, c10KeyRow(col, id, sign*key))
+			}
+			op := "write"
+			if c.Rng.Intn(3) == 0 {
+				op = "writerows"
+			}
+			cs.Steps = append(cs.Steps, c10Step{Op: op, Rows: rows})
+			i += k
+			if i < n && i >= first && c.Rng.Intn(6) == 0 {
+				cs.Steps = append(cs.Steps, c10Step{Op: "flush"})
+			}
+		}
+		if abandoned {
+			// the file is dropped by Reset: its rows must not reach the next file
+			cs.Steps = append(cs.Steps, c10Step{Op: "reset"})
+			continue
+		}
+		cs.Steps = append(cs.Steps, c10Step{Op: "close"})
+		if f+1 < nfiles {
+			cs.Steps = append(cs.Steps, c10Step{Op: "reset"})
+		}
+		lo += 3
+	}
+	return cs
+}
+
 // ---------------------------------------------------------------------------
 // cases.v
 
@@ -1649,7 +1957,7 @@ Definition agrees (c : case) : bool :=
 // ---------------------------------------------------------------------------
 
 func runC10(c *core.Ctx) {
-	c.Res.Rule = "histories (write | writerows)* ; sort ; read ; write more ; sort ; read ... on parquet.NewGenericBuffer[T] (typed column writes), parquet.NewBuffer (dynamic Group schemas, WriteRows / Write), parquet.NewRowBuffer, and parquet.NewSortingWriter (sort-run sizes 1..N, buffer pools, DropDuplicatedRows, MaxRowsPerRowGroup) read back from the output file. Schemas: a master struct (required/optional int64 and string columns, a dictionary column, an optional group with a nested optional leaf of max definition level 2, a repeated payload) and generated Group schemas; 1-3 sorting columns, asc/desc x nulls first/last; values from a small domain (duplicates), null/non-null runs of length 1..20 per column. Every swap sort.Sort performs is recorded and replayed in the model. Sorting by repeated columns (a []int64 column and a repeated group's optional leaf with null elements) runs the same histories on GenericBuffer against the model of repeatedColumnBuffer. A case is one history; non-trivial = at least 2 rows and a sort; distinct by the JSON of the case."
+	c.Res.Rule = "histories (write | writerows)* ; sort ; read ; write more ; sort ; read ... on parquet.NewGenericBuffer[T] (typed column writes), parquet.NewBuffer (dynamic Group schemas, WriteRows / Write), parquet.NewRowBuffer, and parquet.NewSortingWriter (sort-run sizes 1..N, buffer pools, DropDuplicatedRows, MaxRowsPerRowGroup; histories (write | writerows | flush)* close, one writer reused for 2-3 files through Reset, files abandoned by Reset; generated so that a file's smallest key is the previous file's greatest key and occurs once, in its first sort run) with every output file read back and checked against the rows written to it (sorted by Schema.Comparator, permutation; DropDuplicatedRows: one row per key, every key written kept) and against the model of the writer (c10.sw, Sort/Writer.v: same number of rows per file, at every position a row of the model's key, the same rows without DropDuplicatedRows). Schemas: a master struct (required/optional int64 and string columns, a dictionary column, an optional group with a nested optional leaf of max definition level 2, a repeated payload) and generated Group schemas; 1-3 sorting columns, asc/desc x nulls first/last; values from a small domain (duplicates), null/non-null runs of length 1..20 per column. Every swap sort.Sort performs is recorded and replayed in the model. Sorting by repeated columns (a []int64 column and a repeated group's optional leaf with null elements) runs the same histories on GenericBuffer against the model of repeatedColumnBuffer (logical rows, rows after Page, Less matrix == model's Less and == the proved comparator < 0, comparator matrix). A case is one history; non-trivial = at least 2 rows and a sort; distinct by the JSON of the case."
 	var vm []string
 	addVm := func(cs *c10Case, obs []c10Obs) {
 		for _, o := range obs {
@@ -1674,6 +1982,20 @@ func runC10(c *core.Ctx) {
 		{Kind: "rowbuffer", Master: true, Cols: c10MasterCols, Sorting: []c10Sort{{Col: 1, Desc: true}}, Steps: sw},
 		{Kind: "writer", Master: true, Cols: c10MasterCols, Sorting: []c10Sort{{Col: 1, Desc: true}}, SortRows: 2,
 			Steps: []c10Step{sw[0], sw[3]}},
+	}
+	// one writer, two files: the smallest key of the second file is the greatest
+	// key of the last sort run of the first (DropDuplicatedRows)
+	keyRows := func(id0 int64, keys ...int64) [][]c10Cell {
+		var rows [][]c10Cell
+		for i, k := range keys {
+			rows = append(rows, c10KeyRow(4, id0+int64(i), k))
+		}
+		return rows
+	}
+	for _, sortRows := range []int{4, 3, 100} {
+		corpus = append(corpus, &c10Case{Kind: "writer", Master: true, Cols: c10MasterCols, Sorting: []c10Sort{{Col: 4}}, SortRows: sortRows, Dedupe: true,
+			Steps: []c10Step{{Op: "write", Rows: keyRows(1, 5, 3, 7, 3, 1, 7, 9, 2)}, {Op: "close"}, {Op: "reset"},
+				{Op: "write", Rows: keyRows(9, 12, 9, 10, 12, 11, 10)}, {Op: "close"}}})
 	}
 	for _, cs := range corpus {
 		obs, _ := c10Run(c, cs, "corpus/"+cs.Kind)
@@ -1758,23 +2080,49 @@ func runC10(c *core.Ctx) {
 			cs.MaxRowsRG = 1 + c.Rng.Intn(20)
 		}
 		g := c10NewGen(c, cs.Cols)
-		total := c.Rng.Intn(60)
-		for total > 0 {
-			n := 1 + c.Rng.Intn(25)
-			if n > total {
-				n = total
-			}
-			op := "write"
-			if c.Rng.Intn(4) == 0 {
-				op = "writerows"
-			}
-			cs.Steps = append(cs.Steps, c10Step{Op: op, Rows: g.batch(n)})
-			if c.Rng.Intn(6) == 0 {
-				cs.Steps = append(cs.Steps, c10Step{Op: "flush"})
-			}
-			total -= n
+		nfiles := 1
+		if c.Rng.Intn(3) == 0 {
+			nfiles = 2 + c.Rng.Intn(2) // the writer is reused through Reset
 		}
-		c10Run(c, cs, fmt.Sprintf("writer/dedupe=%v", cs.Dedupe))
+		for f := 0; f < nfiles; f++ {
+			total := c.Rng.Intn(60 / nfiles)
+			for total > 0 {
+				n := 1 + c.Rng.Intn(25)
+				if n > total {
+					n = total
+				}
+				op := "write"
+				if c.Rng.Intn(4) == 0 {
+					op = "writerows"
+				}
+				cs.Steps = append(cs.Steps, c10Step{Op: op, Rows: g.batch(n)})
+				if c.Rng.Intn(6) == 0 {
+					cs.Steps = append(cs.Steps, c10Step{Op: "flush"})
+				}
+				total -= n
+			}
+			if f+1 < nfiles {
+				if c.Rng.Intn(6) != 0 {
+					cs.Steps = append(cs.Steps, c10Step{Op: "close"})
+				}
+				cs.Steps = append(cs.Steps, c10Step{Op: "reset"})
+			}
+		}
+		bucket := fmt.Sprintf("writer/dedupe=%v", cs.Dedupe)
+		if nfiles > 1 {
+			bucket += "/reused"
+		}
+		c10Run(c, cs, bucket)
+		if i == 0 {
+			c.Sample(cs)
+		}
+	}
+
+	// ---- one SortingWriter, several files: the next file starts at the previous file's greatest key
+	nReuse := c.N(120, 1200)
+	for i := 0; i < nReuse && c10Hangs == 0; i++ {
+		cs := c10GenReuse(c)
+		c10Run(c, cs, fmt.Sprintf("writer-reuse/dedupe=%v", cs.Dedupe))
 		if i == 0 {
 			c.Sample(cs)
 		}
